@@ -41,3 +41,17 @@ func C18lints(p *load.Program, run *report.Run) {
 	lints.ShortRead(p, run, []string{"sha2pc"}, map[string]bool{"sha2pc/encoding.go": true})
 	run.Floor("read-sites", 7)
 }
+
+// C06pack: bit-packing freshness in the OT package.
+func C06pack(p *load.Program, run *report.Run) {
+	run.Rule("or-pack-fresh", "a store S[e] |= v inside the OT code packs into storage that is zero at every position it may touch: assign-bit form, or a buffer allocated/cleared before the packing with every loop in between moving the position; a loop OR-ing into a caller's buffer without clearing is reported")
+	lints.OrPack(p, run, []string{"ot"}, nil)
+	run.Floor("or-pack-sites", 3)
+}
+
+// C18pack: the same rule for the bit/byte conversions of sha2pc.
+func C18pack(p *load.Program, run *report.Run) {
+	run.Rule("or-pack-fresh", "a store S[e] |= v in the sha2pc codecs packs into storage that is zero at every position it may touch")
+	lints.OrPack(p, run, []string{"sha2pc"}, nil)
+	run.Floor("or-pack-sites", 2)
+}
